@@ -277,3 +277,34 @@ def r15(rr, repo):
 def r14(rr, repo):
     from .c02 import r7 as c02r7
     c02r7(rr, repo)
+
+
+@rule('C06.R16', "a consumer that died is noticed: the age of a client is the time since its last REQUEST - the entry the publisher rewrites when it marks a frame as sent keeps the request time it had, it is not "
+                 "refreshed by the publisher's own traffic (a dead '?' consumer, which never blocks publishing, would otherwise look alive for as long as frames flow - and a required one would never be missed)")
+def r16(rr, repo):
+    za = anchors(repo)
+    fields = list(za.client_fields)
+    if 't_last' not in fields:
+        raise Unresolved(f'{Z}: ZMQSender.Client has no t_last field any more')
+    ti = fields.index('t_last')
+    k = 0
+    for fn in (za.S_maybe, za.S_poll):
+        for c in q.calls_in(fn, into_functions=False):
+            if not U(c.func).endswith('Client') or len(c.args) <= ti:
+                continue
+            k += 1
+            arg = c.args[ti]
+            if fn is za.S_poll:
+                # registering / refreshing a client from a request: the time this request was read
+                ok = isinstance(arg, ast.Name) and any(isinstance(n, ast.Assign) and U(n.targets[0]) == arg.id and 'time_ns()' in U(n.value) for n in walk_scope(za.S_poll))
+                rr.ob('a request stamps the client with the time the request was read', ok, za.mod, c, witness=U(arg), key='t_last-from-request')
+            else:
+                # marking as sent: the same entry's old value (the loop unpacks the entry, the field comes back unchanged)
+                loops = [a for a in ancestors(c) if isinstance(a, ast.For)]
+                same = False
+                if loops and isinstance(arg, ast.Name):
+                    tgt = loops[0].target
+                    inner = tgt.elts[1] if isinstance(tgt, ast.Tuple) and len(tgt.elts) == 2 and isinstance(tgt.elts[1], ast.Tuple) else None
+                    same = inner is not None and len(inner.elts) == len(fields) and U(inner.elts[ti]) == arg.id
+                rr.ob('marking a frame as sent leaves the time of the last request as it was', same, za.mod, c, witness=f'{fields[ti]} := {U(arg)}', key='t_last-kept-on-send')
+    rr.floor('constructions of a client entry in send()', k, 2, za.mod, za.S_send)
